@@ -100,7 +100,7 @@ IDENTS = ["alpha", "beta_gamma", "count", "name", "kind_of", "x1", "max_len", "i
           "dolor", "sit_amet", "level", "mode", "tag_list", "depth_limit", "v", "w2", "zeta", "r#type", "r#fn", "naïve"]
 VIDENTS = ["Alpha", "BetaGamma", "Unit", "NewT", "Conf", "LoremIpsum", "X", "HttpGet", "Other", "Zed", "r#type", "r#move"]
 
-FEATURE_MIN = {"vflat_skip": 3, "skip_word": 4, "skip_collide": 3, "nonzero": 8, "map_inc": 6, "with_u8_plus1": 6, "with_upper": 6, "with_fail": 4}
+FEATURE_MIN = {"empty_struct_variant": 3, "vflat_skip": 3, "skip_word": 4, "skip_collide": 3, "nonzero": 8, "map_inc": 6, "with_u8_plus1": 6, "with_upper": 6, "with_fail": 4}
 FEATURE_COUNT = {}
 RR = {}
 
@@ -431,6 +431,16 @@ def gen_enum(idx):
             # the fields of a struct variant take every field option a struct receiver's fields take
             if eff_rule == "kebab-case":
                 return None          # kebab-case field names cannot be spelled as identifiers
+            # a struct variant without fields (`Idle {}`): it still rejects every item of its list
+            if FEATURE_COUNT.get("empty_struct_variant", 0) < FEATURE_MIN["empty_struct_variant"] and rng.random() < 0.3:
+                v["fields"] = []
+                v["empty_struct"] = True
+                if rng.random() < 0.12:
+                    v["skip"] = True
+                    v["opts"].append("skip")
+                v["name"] = to_variant(eff_rule, ident)
+                variants.append(v)
+                continue
             # guaranteed minimum of struct variants with a flatten field AND a skipped sibling
             want = FEATURE_COUNT.get("vflat_skip", 0) < FEATURE_MIN["vflat_skip"]
             for _attempt in range(400 if want else 1):
@@ -494,6 +504,7 @@ def gen_enum(idx):
     for v in variants:
         if v["kind"] == "struct" and any("-" in f["name"] for f in v["fields"]):
             return None
+    FEATURE_COUNT["empty_struct_variant"] = FEATURE_COUNT.get("empty_struct_variant", 0) + sum(1 for v in variants if v.get("empty_struct") and not v["skip"])
     FEATURE_COUNT["skip_word"] = FEATURE_COUNT.get("skip_word", 0) + sum(1 for v in variants if v.get("layout"))
     FEATURE_COUNT["skip_collide"] = FEATURE_COUNT.get("skip_collide", 0) + sum(1 for v in variants if v.get("collides"))
     FEATURE_COUNT["vflat_skip"] = FEATURE_COUNT.get("vflat_skip", 0) + sum(
@@ -894,7 +905,7 @@ def main():
                 "with = fns::attrs_count", "with = fns::attrs_fail", "with = fns::data_kind", "derive(FromTypeParam)", "derive(FromAttributes)",
                 "derive(FromVariant)", "derive(FromField)", "derive(FromDeriveInput)", "HashMap<", "Option<", "Override<", "Flag", "syn::Path", "syn::Expr"]
     missing = [k for k in REQUIRED if k not in text]
-    missing += [k for k in ("vflat_skip", "skip_word", "skip_collide") if FEATURE_COUNT.get(k, 0) < FEATURE_MIN[k]]
+    missing += [k for k in ("vflat_skip", "skip_word", "skip_collide", "empty_struct_variant") if FEATURE_COUNT.get(k, 0) < FEATURE_MIN[k]]
     if missing:
         raise SystemExit("corpus lost coverage of: %s — adjust the generator (FEATURE_MIN) and regenerate" % missing)
     open(OUT, "w").write(text)
